@@ -628,7 +628,7 @@ def check_stateless(chk, rule, prog, eff, roots):
     if "cbor_load" in roots:
         # the tree builder runs inside the decoder, through the callback table of cbor_load
         import tables as _tb
-        g = prog.global_for(prog.fn("cbor_load"), "cbor_load.callbacks")
+        g = __import__("tables").load_callbacks_global(prog)
         if g is not None and hasattr(g.get("init_val"), "elems"):
             roots += [el.name for el in g["init_val"].elems if getattr(el, "name", None) in prog.funcs]
     for r in roots:
